@@ -306,7 +306,15 @@ impl<'a, 'tcx> Cx<'a, 'tcx> {
         J::Num(b.index() as i128)
     }
 
+    fn body_json_promoted(&self, did: DefId) -> J {
+        self.body_json_inner(did, true)
+    }
+
     fn body_json(&self, did: DefId) -> J {
+        self.body_json_inner(did, false)
+    }
+
+    fn body_json_inner(&self, did: DefId, promoted: bool) -> J {
         let tcx = self.tcx;
         let body = self.body;
         let mut locals = Vec::new();
@@ -472,7 +480,7 @@ impl<'a, 'tcx> Cx<'a, 'tcx> {
             ("locals".into(), J::Arr(locals)),
             ("blocks".into(), J::Arr(blocks)),
         ];
-        if matches!(dk, DefKind::Fn | DefKind::AssocFn) {
+        if !promoted && matches!(dk, DefKind::Fn | DefKind::AssocFn) {
             let sig = tcx.fn_sig(did).instantiate_identity().skip_norm_wip();
             o.push(("unsafe".into(), J::Bool(!sig.safety().is_safe())));
             o.push(("sig".into(), s(with_no_trimmed_paths!(format!("{}", sig)))));
@@ -590,7 +598,18 @@ impl rustc_driver::Callbacks for Cb {
             }
             let body = tcx.optimized_mir(did);
             let cx = Cx { tcx, body, env: TypingEnv::post_analysis(tcx, did) };
-            bodies.push(cx.body_json(did));
+            let mut bj = cx.body_json(did);
+            // promoted constants (e.g. `&FutureState::Waiting`) as small bodies of their own
+            let proms = tcx.promoted_mir(did);
+            let mut pj = Vec::new();
+            for pb in proms.iter() {
+                let pcx = Cx { tcx, body: pb, env: TypingEnv::post_analysis(tcx, did) };
+                pj.push(pcx.body_json_promoted(did));
+            }
+            if let J::Obj(ref mut o) = bj {
+                o.push(("promoted".into(), J::Arr(pj)));
+            }
+            bodies.push(bj);
         }
         let (adts, impls) = crate_tables(tcx);
         let mut feats = Vec::new();
